@@ -102,3 +102,55 @@ def present_pair(c, rng, disjoint=False):
     d = dict(c)
     d.update({"A": A, "B": B, "syms": syms, "pres": [na, nb]})
     return d
+
+
+# ------------------------------------------------------------------ NFAs
+def rand_nfa(rng, nq=None, nedges=None, sigma=None):
+    if nq is None:
+        nq = rng.choice([1, 2, 2, 3, 3, 3, 4, 4])
+    if sigma is None:
+        sigma = ["a", "b", "c"][:rng.choice([1, 2, 2, 3])]
+    if nedges is None:
+        nedges = rng.choice([0, 1, 2, 3, 4, 5, 6, 7])
+    st = list(range(nq))
+    delta = []
+    for _ in range(nedges):
+        e = [rng.choice(st), rng.choice(sigma), rng.choice(st)]
+        if e not in delta:
+            delta.append(e)
+    start = [q for q in st if rng.random() < 0.4] or ([rng.choice(st)] if rng.random() < 0.8 else [])
+    fin = [q for q in st if rng.random() < 0.4] or ([rng.choice(st)] if rng.random() < 0.8 else [])
+    return {"start": start, "fin": fin, "delta": delta}, sigma
+
+
+def nfa_states(a):
+    s = set(a["start"]) | set(a["fin"])
+    for e in a["delta"]:
+        s.add(e[0])
+        s.add(e[2])
+    return s
+
+
+def nfa_rename(a, f):
+    return {"start": [f[q] for q in a["start"]], "fin": [f[q] for q in a["fin"]],
+            "delta": [[f[e[0]], e[1], f[e[2]]] for e in a["delta"]]}
+
+
+def nfa_present(a, rng, num):
+    st = nfa_states(a)
+    n = (max(st) + 1) if st else 0
+    b = nfa_rename(a, numbering(num, n, rng))
+    rng.shuffle(b["delta"])
+    return b
+
+
+def nfa_nonempty(a):
+    reach = set(a["start"])
+    ch = True
+    while ch:
+        ch = False
+        for e in a["delta"]:
+            if e[0] in reach and e[2] not in reach:
+                reach.add(e[2])
+                ch = True
+    return bool(reach & set(a["fin"]))
